@@ -578,6 +578,96 @@ type Weakened struct {
 	V    cty.Value
 	Desc string
 	N    int // number of positions replaced
+	// Alts are other wholly known values the weakened value admits besides
+	// the one it was derived from (the replaced part swapped for other
+	// members of the leaf alphabets that satisfy the refinements); only for
+	// single-position weakenings.
+	Alts []cty.Value
+}
+
+// altLeaves returns a few wholly known values of type ty used as alternative
+// concretisations of an unknown of that type.
+func altLeaves(ty cty.Type) []cty.Value {
+	switch {
+	case ty == cty.Number:
+		return []cty.Value{cty.NumberIntVal(0), cty.NumberIntVal(1), cty.NumberIntVal(2), cty.NumberIntVal(-1), cty.NumberFloatVal(2.5), cty.NumberFloatVal(0.5)}
+	case ty == cty.String:
+		return []cty.Value{cty.StringVal("a"), cty.StringVal("b"), cty.StringVal(""), cty.StringVal("ab"), cty.StringVal("\u00e9")}
+	case ty == cty.Bool:
+		return []cty.Value{cty.True, cty.False}
+	case ty.IsListType() || ty.IsSetType():
+		ety := ty.ElementType()
+		out := []cty.Value{mkColl(ty, nil)}
+		es := altLeaves(ety)
+		if len(es) >= 2 {
+			out = append(out, mkColl(ty, es[:1]), mkColl(ty, es[:2]), mkColl(ty, es[1:2]))
+		}
+		return out
+	case ty.IsMapType():
+		out := []cty.Value{cty.MapValEmpty(ty.ElementType())}
+		es := altLeaves(ty.ElementType())
+		if len(es) >= 2 {
+			out = append(out, cty.MapVal(map[string]cty.Value{"k1": es[0]}), cty.MapVal(map[string]cty.Value{"k1": es[1], "k2": es[0]}))
+		}
+		return out
+	case ty.IsTupleType():
+		var alts [][]cty.Value
+		for _, et := range ty.TupleElementTypes() {
+			a := altLeaves(et)
+			if len(a) == 0 {
+				return nil
+			}
+			alts = append(alts, a)
+		}
+		var out []cty.Value
+		for k := 0; k < 2; k++ {
+			ms := make([]cty.Value, len(alts))
+			for i, a := range alts {
+				ms[i] = a[k%len(a)]
+			}
+			out = append(out, cty.TupleVal(ms))
+		}
+		return out
+	case ty.IsObjectType():
+		out := []cty.Value{}
+		for k := 0; k < 2; k++ {
+			m := map[string]cty.Value{}
+			for n, at := range ty.AttributeTypes() {
+				a := altLeaves(at)
+				if len(a) == 0 {
+					return nil
+				}
+				m[n] = a[k%len(a)]
+			}
+			out = append(out, cty.ObjectVal(m))
+		}
+		return out
+	}
+	return nil
+}
+
+// altConcretisations returns up to max values obtained from v by replacing
+// the member at p (currently x) by other leaves that w admits.
+func altConcretisations(v cty.Value, p Pos, x, w cty.Value, max int) []cty.Value {
+	var out []cty.Value
+	if w.Type() == cty.DynamicPseudoType {
+		return nil
+	}
+	for _, a := range altLeaves(x.Type()) {
+		if len(out) >= max {
+			break
+		}
+		if a.RawEquals(x) {
+			continue
+		}
+		if ok, _ := admits(w, a); !ok {
+			continue
+		}
+		if nv, ok := replaceAt(v, p, a); ok {
+			out = append(out, nv)
+		}
+	}
+	return out
 }
 
 // weakenValue enumerates all weakenings of v with at most k replaced
@@ -585,6 +675,10 @@ type Weakened struct {
 // partially-collapsed results of the builder (e.g. a known list of unknown
 // members) are kept: they also admit v.  The identity (0 replacements) is not
 // included.
+// weakenAlts is the number of alternative concretisations attached to each
+// single-position weakening (0 = none); set by the checks that use them.
+var weakenAlts = 0
+
 func weakenValue(v cty.Value, k int, full bool, maxDepth int) []Weakened {
 	if k <= 0 {
 		return nil
@@ -610,7 +704,11 @@ func weakenValue(v cty.Value, k int, full bool, maxDepth int) []Weakened {
 				continue
 			}
 			singles = append(singles, single{p, w})
-			out = append(out, Weakened{V: nv, Desc: fmt.Sprintf("%v:=%#v", []int(p), w), N: 1})
+			wk := Weakened{V: nv, Desc: fmt.Sprintf("%v:=%#v", []int(p), w), N: 1}
+			if weakenAlts > 0 {
+				wk.Alts = altConcretisations(v, p, x, w, weakenAlts)
+			}
+			out = append(out, wk)
 		}
 		if len(p) == 0 && v.Type() != cty.DynamicPseudoType {
 			out = append(out, Weakened{V: cty.DynamicVal, Desc: "[]:=cty.DynamicVal", N: 1})
